@@ -109,7 +109,7 @@ func (c typedC[E]) ProcessPostCommit(state *boltz.EntityChangeState[E]) {
 	if state.ChangeType.IsDelete() {
 		e = state.InitialState
 	}
-	c.env.record("constraint", Event{St: c.st, Ty: tyName(state.ChangeType), Id: c.env.Tok.Model(state.EntityId), Pl: payloadOf(e, c.env.Tok)})
+	c.env.record("constraint", Event{St: c.st, Ty: tyName(state.ChangeType), Id: c.env.modelId(c.st, state.EntityId), Pl: payloadOf(e, c.env.Tok)})
 }
 
 type untypedC struct {
@@ -123,7 +123,15 @@ func (c untypedC) ProcessPostCommit(state boltz.UntypedEntityChangeState) {
 	if state.GetChangeType().IsDelete() {
 		e = state.GetInitialState()
 	}
-	c.env.record("untypedConstraint", Event{St: c.st, Ty: tyName(state.GetChangeType()), Id: c.env.Tok.Model(state.GetEntityId()), Pl: payloadOf(e, c.env.Tok)})
+	c.env.record("untypedConstraint", Event{St: c.st, Ty: tyName(state.GetChangeType()), Id: c.env.modelId(c.st, state.GetEntityId()), Pl: payloadOf(e, c.env.Tok)})
+}
+
+// the model token of an id of the given store (team ids have a namespace of their own)
+func (env *Env) modelId(st, id string) string {
+	if st == "teams" {
+		return env.Tok.ModelT(id)
+	}
+	return env.Tok.Model(id)
 }
 
 func (env *Env) takeVeto() bool {
@@ -155,24 +163,24 @@ func register[E boltz.Entity](env *Env, st string, store boltz.EntityStore[E]) {
 				if !idOnly {
 					pl = payloadOf(e, env.Tok)
 				}
-				env.record(style, Event{St: st, Ty: name, Id: env.Tok.Model(e.GetId()), Pl: pl})
+				env.record(style, Event{St: st, Ty: name, Id: env.modelId(st, e.GetId()), Pl: pl})
 			}
 		}
 		store.AddEntityEventListener(typedL[E]{f: func(e E) { mk("typed", false)(e) }}, ty.sync)
 		store.AddEntityEventListenerF(func(e E) { mk("typedF", false)(e) }, ty.sync)
 		store.AddListener(mk("untyped", false), ty.sync)
 		store.AddEntityIdListener(func(id string) {
-			env.record("idOnly", Event{St: st, Ty: name, Id: env.Tok.Model(id)})
+			env.record("idOnly", Event{St: st, Ty: name, Id: env.modelId(st, id)})
 		}, ty.sync)
 		store.AddEntityEventListenerF(func(e E) { mk("typedAsync", false)(e) }, ty.async)
 		store.AddListener(mk("untypedAsync", false), ty.async)
 	}
 	// one registration for several change types at once (the type of the change is not part of what these listeners are told)
 	store.AddEntityIdListener(func(id string) {
-		env.record("idAny", Event{St: st, Ty: "any", Id: env.Tok.Model(id)})
+		env.record("idAny", Event{St: st, Ty: "any", Id: env.modelId(st, id)})
 	}, boltz.EntityCreated, boltz.EntityUpdated, boltz.EntityDeleted)
 	store.AddListener(func(e boltz.Entity) {
-		env.record("untypedAny", Event{St: st, Ty: "any", Id: env.Tok.Model(e.GetId())})
+		env.record("untypedAny", Event{St: st, Ty: "any", Id: env.modelId(st, e.GetId())})
 	}, boltz.EntityCreated, boltz.EntityUpdated, boltz.EntityDeleted)
 	store.AddEntityConstraint(typedC[E]{env: env, st: st})
 	store.AddUntypedEntityConstraint(untypedC{env: env, st: st})
